@@ -26,7 +26,7 @@ ASSUMPTIONS = [
     'reference integrator vf/simshim.py for PKPD models']
 REQUIRED = ['mech:analytic', 'mech:pkpd', 'pop', 'nopop', 'cov', 'doses', 'fixed', 'ids:int', 'ids:str', 'ids:npint',
             'custom_keys', 'explicit_map', 'nan_values', 'nan_times', 'unrelated', 'multi_output',
-            'explicit_map:other_order']
+            'explicit_map:other_order', 'dose_row_with_measurement', 'pop_model_replaced']
 OBS_TIMES_POOL = 6
 
 
@@ -104,6 +104,22 @@ def _spec(draw):
             if f < 1.0:
                 for s_ in indiv[i]['series']:
                     s_['t'] = [gen.r6(t * f) for t in s_['t']]
+    if pk and gen.chance(draw, 0.3):
+        # a sample taken at dosing (trough / pre-dose sample): ONE row of the frame carries the dose and the
+        # measurement; the measurement moves to the time of the dose
+        for ind in indiv:
+            s0 = ind['series'][0]
+            ok = [k for k in range(len(s0['t'])) if not s0['nan_t'][k] and not s0['nan_v'][k]]
+            cands = [j for j, d in enumerate(ind['doses']) if ok and d['t'] <= max(s0['t'][k] for k in ok)]
+            if not cands:
+                continue
+            j = cands[0]
+            k = min(ok, key=lambda q: abs(s0['t'][q] - ind['doses'][j]['t']))
+            s0['t'][k] = ind['doses'][j]['t']
+            order = sorted(range(len(s0['t'])), key=lambda q: (s0['t'][q], q != k))
+            for key in ('t', 'v', 'nan_v', 'nan_t'):
+                s0[key] = [s0[key][q] for q in order]
+            ind['merge'] = [order.index(k), j]
     fixed = None
     if n_top >= 2 and gen.chance(draw, 0.3):
         idx = draw(gen.subset(n_top, min_size=1, max_size=n_top - 1))
@@ -158,6 +174,10 @@ def classify(spec):
         labs.append('unrelated')
     if len(spec['ems']) > 1:
         labs.append('multi_output')
+    if replaced_pop(spec):
+        labs.append('pop_model_replaced')
+    if any(i.get('merge') for i in spec['indiv']):
+        labs.append('dose_row_with_measurement')
     return labs
 
 
@@ -228,15 +248,23 @@ def build_frame(spec, deco):
     pk = spec['mech']['kind'] == 'pkpd'
     blocks = []
     for i, ind in enumerate(spec['indiv']):
+        merge = ind.get('merge')
         for o, s in enumerate(ind['series']):
             rows = []
-            for t, v, nv, nt in zip(s['t'], s['v'], s['nan_v'], s['nan_t']):
-                rows.append({K['id']: ids[i], K['time']: np.nan if nt else t, K['obs']: omap[outs[o]],
-                             K['value']: np.nan if nv else v, K['dose']: np.nan, K['dur']: np.nan})
+            for k, (t, v, nv, nt) in enumerate(zip(s['t'], s['v'], s['nan_v'], s['nan_t'])):
+                row = {K['id']: ids[i], K['time']: np.nan if nt else t, K['obs']: omap[outs[o]],
+                       K['value']: np.nan if nv else v, K['dose']: np.nan, K['dur']: np.nan}
+                if merge and o == 0 and k == merge[0]:
+                    d = ind['doses'][merge[1]]
+                    row[K['dose']] = d['dose']
+                    row[K['dur']] = np.nan if d['dur'] is None else d['dur']
+                rows.append(row)
             blocks.append(rows)
         if pk:
             rows = []
-            for d in ind['doses']:
+            for j, d in enumerate(ind['doses']):
+                if merge and j == merge[1]:
+                    continue
                 rows.append({K['id']: ids[i], K['time']: d['t'], K['obs']: np.nan, K['value']: np.nan,
                              K['dose']: d['dose'], K['dur']: np.nan if d['dur'] is None else d['dur']})
             blocks.append(rows)
@@ -328,9 +356,26 @@ def build_controller(spec, df, K):
     if pm is not None and spec['deco']['pop_first']:
         ctrl.set_population_model(pm)
     ctrl.set_data(df, **kw)
-    if pm is not None and not spec['deco']['pop_first']:
+    if pm is not None and replaced_pop(spec):
+        # another population model was tried first on the same data (its covariates are the same observables in
+        # another order) and a posterior was built; then the model of the spec is set
+        import copy
+        import pints
+        decoy = copy.deepcopy(pm)
+        decoy.set_covariate_names(list(reversed(pm.get_covariate_names())))
+        ctrl.set_population_model(decoy)
+        ctrl.set_log_prior(pints.ComposedLogPrior(*[pints.GaussianLogPrior(1.0, 10.0)
+                                                    for _ in range(ctrl.get_n_parameters())]))
+        ctrl.get_log_posterior()
+        ctrl.set_population_model(pm)
+    elif pm is not None and not spec['deco']['pop_first']:
         ctrl.set_population_model(pm)
     return ctrl
+
+
+def replaced_pop(spec):
+    return spec['pop'] is not None and ref.pop_n_cov(spec['pop']) >= 2 and not spec['deco']['explicit_map'] \
+        and spec['deco']['order_seed'] % 2 == 0
 
 
 def events_of(spec, i, t_end):
